@@ -40,6 +40,7 @@ JOBS = ["j1", "j2", "j3", "j4"]  # entry points of created tasks: each defined i
                                # statement = its own sleep of 16 * 2**(i-1) units (no two evaluators ever wake at the same instant)
 STATEVAR = "pyscript.vfon"     # state variable named in every task.wait_until expression (both decorator subsystems only watch
                                # expressions that name a state variable); set to '1' before the integration starts
+UNIQ = ["u", "v"]               # task names handed to task.unique: few, so that holders and takers meet (per context: CtxSeen)
 UNDEF = "<undef>"
 D0 = 3                         # depth budget of an entry point (ContextsCore!D0)
 UNIT = 2.0 ** -12              # one model time unit in seconds (about 0.24 ms): sleeps and wait_until timeouts are multiples of 1024
@@ -83,9 +84,23 @@ def norm_stmts(stmts):
             s.setdefault("kind", "std")
         if s["op"] == "task":
             s.setdefault("via", "")
-        if s["op"] in ("def", "ldef"):
+        if s["op"] == "unique":
+            s.setdefault("killme", False)
+        if s["op"] in ("def", "ldef", "try"):
             norm_stmts(s["body"])
+        if s["op"] == "try":
+            norm_stmts(s["fin"])
     return stmts
+
+
+def flat_stmts(stmts):
+    """all statements of a function body, those inside try / finally included (statements of nested defs are not)."""
+    out = []
+    for s in stmts:
+        out.append(s)
+        if s["op"] == "try":
+            out += flat_stmts(s["body"]) + [dict(t, _fin=True) for t in flat_stmts(s["fin"])]
+    return out
 
 
 def norm_prog(p):
@@ -119,6 +134,9 @@ def gen_program(r, pid, mask_rel_member=False):
     alias_of = {}
     bare_names = set()      # job names imported by name / star into the file being generated
     deco_trig = [False]     # at most one decorated trigger function per program (its wrapper runs before the function's own first sleep)
+    # round 4: half of the programs are "cancel-heavy": entry points take a task name early and stay suspended inside try / finally
+    # (their own or a callee's), other entry points of the same name space take the name later
+    heavy = r.random() < 0.5
 
     def tag(c, what):
         tagn[0] += 1
@@ -163,8 +181,10 @@ def gen_program(r, pid, mask_rel_member=False):
             if wrapper and not fcalled and k < 0.45:
                 fcalled = True
                 body.append({"op": "fcall"})
-            elif k < 0.10:
+            elif k < (0.16 if heavy else 0.10):
                 body.append({"op": "sleep", "t": 1024 * r.randint(1, 8)})           # suspends: other evaluators run meanwhile
+            elif heavy and k < 0.22 and r.random() < 0.6:
+                body.append({"op": "unique", "n": r.choice(UNIQ[:1] if r.random() < 0.7 else UNIQ), "killme": r.random() < 0.25})
             elif k < 0.22 and ndcall == 0:
                 # depth-guarded call, free of the f > g > h order: recursion, re-entrant chains, callbacks across files, hooks
                 ndcall += 1
@@ -214,6 +234,53 @@ def gen_program(r, pid, mask_rel_member=False):
                 body.insert(r.randint(0, len(body) - (1 if body and body[-1]["op"] == "raise" else 0)), st)
         if wrapper and not fcalled and r.random() < 0.8 and (not body or body[-1]["op"] != "raise"):
             body.append({"op": "fcall"})
+        if heavy and entry is None and body and body[-1]["op"] != "raise":
+            # functions that stay suspended for a while / take a task name of THEIR file's name space on behalf of whoever calls them
+            nloc = len([t for t in body if t["op"] == "loc"])
+            if r.random() < 0.6:
+                body.insert(r.randint(nloc, len(body)), {"op": "sleep", "t": 1024 * r.randint(1, 8)})
+            if r.random() < 0.25:
+                body.insert(r.randint(nloc, len(body)), {"op": "unique", "n": UNIQ[0], "killme": r.random() < 0.3})
+        def fin_code():
+            """clean-up code: simple statements that observe / use the name resolution state (never suspends, never raises)."""
+            fin = []
+            for _ in range(r.randint(1, 3)):
+                kk = r.random()
+                if kk < 0.35:
+                    fin.append({"op": "read", "x": r.choice(DATA + FUNCS[:1] + ["WHO"]), "tag": tag(c, fname + ".fr")})
+                elif kk < 0.55:
+                    fin.append({"op": "getctx", "tag": tag(c, fname + ".fgc")})
+                elif kk < 0.65:
+                    fin.append({"op": "listctx", "tag": tag(c, fname + ".flc")})
+                elif kk < 0.85:
+                    x = r.choice([d for d in DATA if d not in locnames] or ["WHO"])
+                    if x in locnames:
+                        continue
+                    fin.append({"op": "set", "x": x, "v": "%s.%s.f%s%d" % (SHORT[c], fname, x, r.randint(1, 9))})
+                elif aliases:
+                    fin.append({"op": "readattr", "m": r.choice(aliases), "x": r.choice(DATA), "tag": tag(c, fname + ".fra")})
+            return fin or [{"op": "getctx", "tag": tag(c, fname + ".fgc")}]
+
+        if entry is not None and r.random() < (0.85 if heavy else 0.1):
+            # an entry point (trigger function / job) that takes a task name: whoever takes the same name of the same context later
+            # cancels it wherever it is suspended then - inside a function of another file, inside clean-up-protected code, ...
+            nloc = len([t for t in body if t["op"] == "loc"])
+            at = r.randint(nloc, min(len(body), nloc + 1))
+            body.insert(at, {"op": "unique", "n": UNIQ[0] if r.random() < 0.9 else UNIQ[1], "killme": r.random() < 0.1})
+            if heavy and r.random() < 0.8:
+                # ... and then runs a function (of another file, if a module object is at hand) under clean-up code of its own
+                via = r.choice(aliases) if aliases and r.random() < 0.7 else ""
+                st = {"op": "call", "f": r.choice(FUNCS), "via": via} if r.random() < 0.6 else \
+                    {"op": "trycall", "f": r.choice(FUNCS), "via": via, "tag": tag(c, fname + ".t")}
+                body.insert(r.randint(at + 1, len(body) - (1 if body[-1]["op"] == "raise" else 0)), {"op": "try", "body": [st], "fin": fin_code()})
+        # try / finally around any stretch of the body (after the local assignments), nested or one after the other
+        for _ in range(r.choice([0, 1, 1, 2] if heavy else [0, 0, 0, 1])):
+            nloc = len([t for t in body if t["op"] == "loc"])
+            if len(body) <= nloc:
+                break
+            i = r.randint(nloc, len(body) - 1)
+            j = r.randint(i + 1, len(body))
+            body[i:j] = [{"op": "try", "body": body[i:j], "fin": fin_code()}]
         if trigger and callee and r.random() < 0.5 and (not body or body[-1]["op"] != "raise"):
             # the creator ends here: the task inherits its place in time.  created tasks respect the f > g > h order too
             body.append({"op": "task", "f": r.choice(callee), "via": r.choice([""] + aliases) if r.random() < 0.3 else ""})
@@ -313,7 +380,7 @@ def gen_program(r, pid, mask_rel_member=False):
                 names.append(j)
         # trigger functions: uniquely named (nothing calls them: tasks are only created in the event phase)
         if c in autos:
-            for _ in range(r.choice([0, 1, 1, 2])):
+            for _ in range(r.choice([1, 2, 2, 2] if heavy else [0, 1, 1, 2])):
                 trig = "ev%d" % (len(events) + 1)
                 events.append(trig)
                 tname = "t%d" % len(events)
@@ -407,12 +474,16 @@ def render_stmts(stmts, ind, infunc):
                 out.append(p + "def %s(_fn=None):" % s["f"])          # plain decorator / factory
             else:
                 out.append(p + "def %s(_d=%d, _cb=None):" % (s["f"], D0))
-            gl = sorted({t["x"] for t in s["body"] if t["op"] == "set"})
+            gl = sorted({t["x"] for t in flat_stmts(s["body"]) if t["op"] == "set"})
             if gl:
                 out.append(p + "    global " + ", ".join(gl))
             out += render_stmts(s["body"], ind + 4, True) or [p + "    pass"]
         elif op == "ret":
             out.append(p + "return %s" % s["x"])
+        elif op == "try":
+            out += [p + "try:"] + (render_stmts(s["body"], ind + 4, infunc) or [p + "    pass"]) + [p + "finally:"] + render_stmts(s["fin"], ind + 4, infunc)
+        elif op == "unique":
+            out.append(p + ("task.unique(%r, kill_me=True)" if s.get("killme") else "task.unique(%r)") % s["n"])
         elif op == "fcall":
             out += [p + "if _fn is not None:", p + "    _fn(_d, _cb)"]
         elif op == "bindcall":
@@ -669,6 +740,56 @@ def decorator_programs():
                       ("decorator/explicit-factory-hook", p3)))
 
 
+def cancel_programs():
+    """An evaluator cancelled while it is suspended inside a function of another file, with clean-up code in the caller (re-executed on
+    every run, both decorator subsystems): (1) a.t1 takes the task name u and sleeps inside m.slow (which has a finally of its own)
+    within try / finally; a.t2 takes u later; the same from b.py takes ANOTHER u (no cancellation); (2) kill_me inside a function of m
+    whose name m's hold() took for another evaluator; (3) nested try / finally, a try-call (except Exception) around the suspended
+    callee, the victim suspended in a task.wait_until expression inside m, a job as victim whose creator takes the name."""
+    fin = lambda s: [{"op": "read", "x": "x", "tag": s + ".fr"}, {"op": "getctx", "tag": s + ".fgc"}, {"op": "listctx", "tag": s + ".flc"},
+                     {"op": "set", "x": "y", "v": s + ".fy"}, {"op": "read", "x": "WHO", "tag": s + ".fr2"}]
+    tail = lambda s: [{"op": "read", "x": "x", "tag": s + ".r"}, {"op": "getctx", "tag": s + ".gc"}]
+    u = lambda km=False: {"op": "unique", "n": "u", "killme": km}
+    slow = mkdef("f", [{"op": "set", "x": "x", "v": "m.f.x1"},
+                       {"op": "try", "body": [{"op": "sleep", "t": 4096}], "fin": [{"op": "read", "x": "x", "tag": "m.f.fr"}, {"op": "getctx", "tag": "m.f.fgc"}]},
+                       {"op": "read", "x": "x", "tag": "m.f.r"}])
+    mb = [_who("modules.m"), {"op": "set", "x": "x", "v": "m.x0"}, {"op": "set", "x": "y", "v": "m.y0"}, slow,
+          mkdef("g", [u(), {"op": "sleep", "t": 8192}, {"op": "read", "x": "x", "tag": "m.g.r"}]),
+          mkdef("h", [u(True), {"op": "sleep", "t": 1024}, {"op": "read", "x": "x", "tag": "m.h.r"}])]
+    head = lambda c: [_who(c), {"op": "set", "x": "x", "v": SHORT[c] + ".x0"}, {"op": "set", "x": "y", "v": SHORT[c] + ".y0"}]
+    p1 = {"order": ["file.a", "file.b"], "events": ["ev1", "ev2", "ev3"], "files": {
+        "modules.m": {"auto": False, "body": mb},
+        "file.a": {"auto": True, "body": head("file.a") + [_imp("mod", "modules.m", "m"),
+                   mkdef("t1", [{"op": "sleep", "t": 1}, {"op": "loc", "x": "_p", "v": "a.t1.l"}, u(),
+                                {"op": "try", "body": [{"op": "call", "f": "f", "via": "m"}], "fin": fin("a.t1")}] + tail("a.t1"), "ev1"),
+                   mkdef("t2", [{"op": "sleep", "t": 2048}, u()] + tail("a.t2"), "ev2")]},
+        "file.b": {"auto": True, "body": head("file.b") + [_imp("from", "modules.m", "", ["f"]),
+                   mkdef("t3", [{"op": "sleep", "t": 1027}, u(), {"op": "try", "body": [{"op": "call", "f": "f", "via": ""}], "fin": fin("b.t3")}] + tail("b.t3"),
+                         "ev3")]}}}
+    p2 = {"order": ["file.a", "file.b"], "events": ["ev1", "ev2"], "files": {
+        "modules.m": {"auto": False, "body": mb},
+        "file.a": {"auto": True, "body": head("file.a") + [_imp("star", "modules.m"),
+                   mkdef("t1", [{"op": "sleep", "t": 1}, {"op": "try", "body": [{"op": "call", "f": "g", "via": ""}], "fin": fin("a.t1")}] + tail("a.t1"), "ev1")]},
+        "file.b": {"auto": True, "body": head("file.b") + [_imp("mod", "modules.m", "mm"),
+                   mkdef("t2", [{"op": "sleep", "t": 1026}, {"op": "loc", "x": "y", "v": "b.t2.l"},
+                                {"op": "try", "body": [{"op": "try", "body": [{"op": "call", "f": "h", "via": "mm"}], "fin": [{"op": "read", "x": "y", "tag": "b.t2.fr0"}]},
+                                                       {"op": "read", "x": "x", "tag": "b.t2.r0"}], "fin": fin("b.t2")[:3]}] + tail("b.t2"), "ev2")]}}}
+    p3 = {"order": ["file.a"], "events": ["ev1", "ev2"], "files": {
+        "modules.m": {"auto": False, "body": [_who("modules.m"), {"op": "set", "x": "x", "v": "m.x0"},
+                      mkdef("f", [{"op": "wexpr", "x": "x", "v": "a.x0", "t": 8192, "tag": "m.f.wx"}, {"op": "read", "x": "x", "tag": "m.f.r"}]),
+                      mkdef("j1", [{"op": "sleep", "t": 16}, u(), {"op": "try", "body": [{"op": "dcall", "f": "hk", "via": "", "cb": ""}],
+                                                                   "fin": [{"op": "read", "x": "x", "tag": "m.j1.fr"}, {"op": "getctx", "tag": "m.j1.fgc"}]}])]},
+        "file.a": {"auto": True, "body": head("file.a") + [_imp("mod", "modules.m", "m"),
+                   mkdef("g", [{"op": "try", "body": [{"op": "sleep", "t": 8192}], "fin": fin("a.g")}]), {"op": "sethook", "m": "m", "f": "g"},
+                   mkdef("t1", [{"op": "sleep", "t": 1}, u(), {"op": "task", "f": "j1", "via": "m"},
+                                {"op": "try", "body": [{"op": "trycall", "f": "f", "via": "m", "tag": "a.t1.t"}], "fin": fin("a.t1")}] + tail("a.t1"), "ev1"),
+                   mkdef("h", [u()] + tail("a.h")),
+                   mkdef("t2", [{"op": "sleep", "t": 2050}, u(), {"op": "dcall", "f": "h", "via": "m", "cb": ""}, {"op": "call", "f": "h", "via": ""}] + tail("a.t2"), "ev2")]}}}
+    p3["files"]["modules.m"]["body"].append(mkdef("h", [u()] + tail("m.h")))       # takes m's u: cancels the job suspended inside a.g
+    return _variants((("cancel/suspended-in-module-function", p1), ("cancel/kill-me-inside-module-function", p2),
+                      ("cancel/nested-trycall-waituntil-job", p3)))
+
+
 WHAT = {
     "contexts": "the set of contexts that ran is not the one the documentation names for the imported files",
     "instances": "a file was executed more than once (more than one module instance)",
@@ -679,6 +800,9 @@ WHAT = {
 
 def slim(c):
     return {"id": c["id"], "prog": c["prog"], "obs": c["obs"]}
+
+
+COV = {}          # case id -> what the machine did on the way (ContextsTrace!Cov, printed by TLC)
 
 
 def validate(ctx, cases, label, report=True, split=1):
@@ -696,6 +820,9 @@ def validate(ctx, cases, label, report=True, split=1):
             raise MachineryFailure("ContextsTrace visited %d states for %d cases" % (r.distinct, n))
         ctx.add_tlc(r, "ContextsTrace:" + label)
         rejects += r.rejects
+        for i in r.infos:
+            if "id" in i:
+                COV[i["id"]] = sorted(i.get("cov", []))
     if report:
         byid = {c["id"]: c for c in cases}
         for rj in rejects:
@@ -709,7 +836,8 @@ def validate(ctx, cases, label, report=True, split=1):
                 code = "file-level" if len(t) < 3 else "job" if t[1] in JOBS else "closure" if t[1][1:] in DECOS and t[1][0] == "w" else \
                     "decorator" if t[1] in DECOS else "trigger-function" if t[1][0] == "t" and t[1][1:].isdigit() else "function"
                 kind = {"gc": "get_global_ctx", "lc": "list_global_ctx", "wx": "wait_until-expression", "r": "read", "ra": "read-through-module",
-                        "t": "call-outcome"}.get(t[-1].rstrip("0123456789"), "observation")
+                        "t": "call-outcome", "fr": "finally.read", "fgc": "finally.get_global_ctx", "flc": "finally.list_global_ctx",
+                        "fra": "finally.read-through-module"}.get(t[-1].rstrip("0123456789"), "observation")
                 sig["at"] = code + "." + kind
             for fl in rj["why"]:
                 sig[fl] = True
@@ -746,7 +874,7 @@ def selftest(ctx, cases, rejected):
     # round 3: observations of the new kinds - the context a context-bound function reports inside a function / task, the
     # outcome of a task.wait_until expression, the defining context of a closure bound by another file
     import re
-    kinds = {"ctx": 0, "wexpr": 0, "closure": 0}
+    kinds = {"ctx": 0, "wexpr": 0, "closure": 0, "fin-ctx": 0, "fin-skipped": 0, "not-cancelled": 0}
     for c in cases:
         if c["id"] in rejected:
             continue
@@ -780,6 +908,38 @@ def selftest(ctx, cases, rejected):
                 c6["obs"]["tabs"][t][n]["ctx"] = t                                 # the closure belongs to the file that bound it
                 bad.append(c6)
                 kinds["closure"] += 1
+    # round 4: recordings of programs in which an evaluator was cancelled inside a function of another file and clean-up code of the
+    # caller ran (known from the machine: COV): the clean-up code answering for the callee's file; the clean-up code not run at all; the
+    # victim going on as if it had not been cancelled (one more observation after its clean-up code)
+    for c in cases:
+        if c["id"] in rejected or "cancel-fin-across" not in COV.get(c["id"], []):
+            continue
+        o = c["obs"]
+        fin = [i for i, e in enumerate(o["log"]) if re.search(r"\.f(r|gc|lc|ra)\d*$", e["tag"])]
+        fgc = [i for i in fin if re.search(r"\.f(gc|lc)\d*$", o["log"][i]["tag"]) and o["log"][i]["v"].get("k") == "data"]
+        if fgc and kinds["fin-ctx"] < 12:
+            c7 = copy.deepcopy(c)
+            c7["id"] = "corrupt-fin-ctx/" + c["id"]
+            e = c7["obs"]["log"][fgc[-1]]
+            others = sorted(set(c["prog"]["files"]) - {e["v"]["v"]})
+            e["v"] = {"k": "data", "v": others[0] if others else "file.zz"}
+            bad.append(c7)
+            kinds["fin-ctx"] += 1
+        if fin and kinds["fin-skipped"] < 12:
+            c8 = copy.deepcopy(c)
+            c8["id"] = "corrupt-fin-skipped/" + c["id"]
+            del c8["obs"]["log"][fin[-1]]
+            bad.append(c8)
+            kinds["fin-skipped"] += 1
+        if fin and kinds["not-cancelled"] < 12:
+            c9 = copy.deepcopy(c)
+            c9["id"] = "corrupt-not-cancelled/" + c["id"]
+            c9["obs"]["log"].insert(fin[-1] + 1, {"tag": o["log"][fin[-1]]["tag"].rsplit(".", 1)[0] + ".r", "v": {"k": "data", "v": "zz"}})
+            bad.append(c9)
+            kinds["not-cancelled"] += 1
+    if rejected and all(c["id"] in rejected for c in cases if "cancel-fin-across" in COV.get(c["id"], [])):
+        for k in ("fin-ctx", "fin-skipped", "not-cancelled"):       # every recording of that kind is already rejected (reported above)
+            kinds[k] = kinds[k] or -1
     if not bad or not all(kinds.values()):
         raise MachineryFailure("selftest: nothing to corrupt (%s)" % kinds)
     ctx.cov["selftest_corruption_kinds"] = dict(kinds, table=sum(1 for c in bad if c["id"].startswith("corrupt-table/")),
@@ -794,7 +954,8 @@ def selftest(ctx, cases, rejected):
 
 def model_check(ctx):
     """(M): invariants over all programs of the grammar; mutant flags must violate their invariant."""
-    inv = "INVARIANT InvWrites\nINVARIANT InvPointer\nINVARIANT InvInstance\nINVARIANT InvCtxFuncs\nINVARIANT InvOk\nCHECK_DEADLOCK FALSE\n"
+    inv = ("INVARIANT InvWrites\nINVARIANT InvPointer\nINVARIANT InvInstance\nINVARIANT InvCtxFuncs\nINVARIANT InvNames\nINVARIANT InvOk\n"
+           "CHECK_DEADLOCK FALSE\n")
 
     def cfg(name, flags, opsa, mode, invs=inv):
         path = os.path.join(ctx.scratch, name + ".cfg")
@@ -806,6 +967,7 @@ def model_check(ctx):
     W2 = ("W_NoInterleave", "W_NoReentry", "W_NoRecursion")
     W3 = ("W_NoWrapperCall", "W_NoWrappedBack", "W_NoDecoTrigger", "W_NoFactory")
     W4 = ("W_NoTaskCrossing", "W_NoCreatorElsewhere", "W_NoTimeout")
+    W5 = ("W_NoCancelAcross", "W_NoSelfCancel", "W_NoCancelPastTry", "W_NoForeignName", "W_NoNestedFin", "W_NoErrorFin")
     # (label, cfg, kind, expected): kind "stmt" = invariants must hold; "wit" = witnesses must be reached (with "stmt+wit" both);
     # "viol" = one of the expected invariants must be violated
     runs = [("statement: package with relative imports of every form", cfg("C_rel", "{}", 1, "rel"), "stmt", ()),
@@ -816,6 +978,15 @@ def model_check(ctx):
              cfg("C_deco", "{}", 1, "deco", both), "stmt+wit", W3),
             ("statement + witnesses: context-bound functions in created tasks running another file's code (task crossing a file boundary, "
              "creator suspended in another context, wait_until expression timing out)", cfg("C_task", "{}", 1, "task", both), "stmt+wit", W4),
+            ("statement + witnesses: evaluators cancelled through task names (task.unique, kill_me) while suspended inside another file's "
+             "function, try / finally in caller and callee, nested, around a try-call; %s; all interleavings (clean-up code of the "
+             "caller after a cancellation inside the module, self-cancellation, cancellation passing except Exception, same name in another "
+             "context not cancelled, nested clean-up, clean-up for an ordinary exception)" % ctx.pick("one taker", "two takers"),
+             cfg("C_cancel", "{}", ctx.pick(1, 2), "cancel", both), "stmt+wit", W5),
+            ("mutant flag no-restore-on-cancel (caller's context not restored when the callee is cancelled)",
+             cfg("C_m8", '{"no-restore-on-cancel"}', 1, "cancel"), "viol", ("InvPointer", "InvWrites", "InvCtxFuncs")),
+            ("mutant flag unique-names-global (one task name space for all files)",
+             cfg("C_m9", '{"unique-names-global"}', 1, "cancel"), "viol", ("InvNames",)),
             ("mutant flag callee-in-caller-ctx", cfg("C_m1", '{"callee-in-caller-ctx"}', 1, "plain"), "viol", ("InvPointer", "InvWrites")),
             ("mutant flag no-restore-on-raise", cfg("C_m2", '{"no-restore-on-raise"}', 1, "plain"), "viol", ("InvPointer", "InvWrites")),
             ("mutant flag star-second-instance", cfg("C_m3", '{"star-second-instance"}', 1, "plain"), "viol", ("InvInstance",)),
@@ -875,7 +1046,7 @@ def main(ctx):
     skip_model = bool(os.environ.get("VERIF_SKIP_MODEL"))          # mutant runs: the model does not depend on the code
     th = [(lambda: None) if skip_model else (lambda: model_check(ctx)), lambda: run_workers("harness.drivers.c11", "work", jobs, ctx.scratch, nproc=nproc),
           lambda: run_workers("harness.drivers.c11", "work_replay",
-                              [{"prog": p, "cwd": cwd} for p in [copy.deepcopy(WITNESS)] + reentrant_programs() + ctxbound_programs() + decorator_programs()],
+                              [{"prog": p, "cwd": cwd} for p in [copy.deepcopy(WITNESS)] + reentrant_programs() + ctxbound_programs() + decorator_programs() + cancel_programs()],
                               ctx.scratch, nproc=min(3, CAP))]
     outs = parallel(th, max_workers=3 if CAP >= 8 else 1)
     cases = [c for r in outs[1] for c in r] + [c for r in outs[2] for c in r]
@@ -906,13 +1077,17 @@ def main(ctx):
                         fs.add("deco:def:" + ("closure" if any(t["op"] == "ldef" for t in s["body"]) else "identity"))
                     if s["f"] in JOBS:
                         fs.add("job")
-                    inner = list(s["body"])
+                    inner = flat_stmts(s["body"])
                     for t in s["body"]:
                         if t["op"] == "ldef":
-                            inner += [dict(u, _w=True) for u in t["body"]]
+                            inner += [dict(u, _w=True) for u in flat_stmts(t["body"])]
                     for k, t in enumerate(inner):
                         fs.add(("in-closure:" if t.get("_w") else "in-func:") + t["op"])
-                        if t["op"] == "task" and not t.get("_w") and k < len(s["body"]) - 1:
+                        if t.get("_fin"):
+                            fs.add("in-finally:" + t["op"])
+                        if t["op"] == "try" and any(u["op"] == "try" for u in t["body"]):
+                            fs.add("try:nested")
+                        if t["op"] == "task" and not t.get("_w") and t is not s["body"][-1]:
                             fs.add("task:creator-goes-on")
                         if t["op"] == "task" and t.get("via"):
                             fs.add("task:via-module")
@@ -946,6 +1121,7 @@ def main(ctx):
                     fs.add("bound:closure-of-another-file")
                 if n == "hk" and v.get("k") == "func" and v["ctx"] != t:
                     fs.add("bound:hook-of-another-file")
+        fs |= {"machine:" + x for x in COV.get(c["id"], [])}      # measured by TLC while it computed the expected recording
         for x in fs:
             feats[x] = feats.get(x, 0) + 1
         cross = any(e["v"].get("k") == "func" for e in c["obs"]["log"]) or len(c["obs"]["inst"]) >= 2
@@ -956,7 +1132,10 @@ def main(ctx):
             "in-func:raise", "top:setctx", "exception-crossed-a-call", "in-func:sleep", "dcall:callback", "dcall:recursion",
             "dcall:passes-callback", "deco:syntax", "deco:syntax:via-module", "deco:explicit", "deco:factory", "deco:def:closure", "job",
             "task:creator-goes-on", "in-func:getctx", "in-func:listctx", "in-func:wexpr", "in-closure:fcall", "ran:closure", "ran:job",
-            "ran:context-bound-function-in-job", "wexpr:state", "wexpr:timeout", "bound:closure-of-another-file", "bound:hook-of-another-file"]
+            "ran:context-bound-function-in-job", "wexpr:state", "wexpr:timeout", "bound:closure-of-another-file", "bound:hook-of-another-file",
+            "in-func:try", "in-func:unique", "try:nested", "in-finally:read", "in-finally:set", "in-finally:getctx",
+            "machine:cancel-fin-across", "machine:cancel-fin-direct", "machine:cancel-pop-across", "machine:error-fin-across",
+            "machine:kill-other", "machine:kill-me"]
     if [x for x in need if not feats.get(x)]:
         raise MachineryFailure("features never generated: %s" % [x for x in need if not feats.get(x)])
     ctx.cov["distinct_nontrivial"] = len(nontrivial)
